@@ -17,6 +17,7 @@ ID = "C13"
 LEVEL = "exploration"
 CONTRACTS = True  # icontract postconditions on AlignedStream.read/peek/seek fire during this workload too
 STEP_BUDGET = 120_000_000
+HANDLE_CLOSE_CHECK = True
 ANCHOR_FILES = [f"dissect/hypervisor/disk/{m}.py" for m in ("qcow2", "vmdk", "vhdx", "vhd", "vdi", "hdd")]
 RULE = (
     "Per format, virtual disks at the format's scale (QCOW2 64 TiB with 64 KiB and 2 MiB clusters, VHDX 64 TiB, VMDK "
